@@ -91,7 +91,8 @@ P = ("C06-",)
 # where a spawn goes is decided by the task-group variable: after a block - however it ended - it is the enclosing scope's group
 # again (or unset outside every scope, where a spawn yields a detached task)
 _c06 = lambda n: n.startswith("C06-") or "TaskGroupContext-variable-is-what-it-was" in n      # noqa: E731
-from .C02 import TaskGroupExit as _TaskGroupExit      # noqa: E402
+from .C02 import TaskGroupExit as _TaskGroupExit, ReEnterAsync as _ReEnterAsync      # noqa: E402
 
 CONTRACTS = [variant(Run, "C06", P), variant(Spawn, "C06", P), variant(AsyncScope, "C06", _c06),
-             variant(SyncScope, "C06", _c06), variant(StateBlock, "C06", _c06), variant(_TaskGroupExit, "C06", _c06)]
+             variant(SyncScope, "C06", _c06), variant(StateBlock, "C06", _c06), variant(_TaskGroupExit, "C06", _c06),
+             variant(_ReEnterAsync, "C06", _c06)]
